@@ -64,6 +64,8 @@ def rename(xs, ws, w):
                 v = [rename(xf.nested, kf.nested, x) for x in v]
             else:
                 v = rename(xf.nested, kf.nested, v)
+        elif kf.kafka_type == "datetime_i64" and kf.nullable and v == -1:
+            v = None  # kio presents the wire value -1 of a ...TimeMs field with default -1 as None
         out[kf.name] = v
     return out
 
@@ -183,6 +185,52 @@ def wire_checks(acc, xs, ws, ctx, order, k):
             bad(f"bytes-differ-from-definition/{shape(xf) if xf else 'unknown-field'}", {"wire": to_json(w)},
                 f"{ref.hex()[:400]} (first difference at byte {off}: {lay.where(off)})", b.getvalue().hex()[:400], order + (n,))
             return
+    # the other direction, with the tagged-section patterns a conforming peer may send (explicit defaults, explicit
+    # null forms, unknown tags): the generated class's reader accepts them and re-encodes canonically
+    try:
+        from kio.serial import entity_reader
+
+        reader = entity_reader(ws.cls)
+    except NotImplementedError:
+        reader = None
+    except Exception as e:  # noqa: BLE001
+        bad(f"reader-not-derivable/{exc_name(e)}", {}, "entity_reader(T) can be built for a generated class", repr(e)[:300], order)
+        reader = None
+    if reader is not None and xs.flexible:
+        exw = values.Explorer(xs, 1, "wire", 300, default_of=x_default)
+        m = 0
+        for cost, w, edits in exw:
+            if "__x__" not in json.dumps(to_json(w)) and cost:
+                continue  # value deviations were covered above; here: base + tagged-section patterns
+            m += 1
+            try:
+                ref = bytes(refcodec.encode(xs, w, x_default).buf)
+                canon = bytes(refcodec.encode(xs, bridge.strip_x(w), x_default).buf)
+                bridge.to_entity(ws, rename(xs, ws, bridge.strip_x(w)))
+            except (refcodec.RefError, bridge.OutOfDomain):
+                continue
+            acc.add("evaluations")
+            acc.add("decode_cases")
+            try:
+                dec = reader(io.BytesIO(ref))
+                b2 = io.BytesIO()
+                writer(b2, dec)
+            except Exception as e:  # noqa: BLE001
+                bad(f"decoder-rejects-conforming-encoding/{exc_name(e)}", {"wire": to_json(w)}, "decodes and re-encodes", repr(e)[:300], order + (m,))
+                break
+            # the decoded VALUES are the ones on the wire, absent tagged fields at the definition's default
+            want = rename(xs, ws, bridge.strip_x(w))
+            try:
+                got = bridge.from_entity(ws, dec)
+            except bridge.OutOfDomain as e:
+                bad("decoded-value-ill-typed", {"wire": to_json(w)}, short(want, 300), str(e)[:300], order + (m,))
+                break
+            if not bridge.same_wire(got, want):
+                bad("decoded-values-differ-from-definition", {"wire": to_json(w)}, short(want, 400), short(got, 400), order + (m,))
+                break
+            if b2.getvalue() != canon:
+                bad("decode-then-encode-differs-from-canonical", {"wire": to_json(w)}, canon.hex()[:300], b2.getvalue().hex()[:300], order + (m,))
+                break
     # all-defaults instance: required fields get their base value, the rest the class's defaults
     base = values.base_value(values.build(xs, "value", 300, default_of=x_default))
     kbase = rename(xs, ws, base)
